@@ -450,8 +450,32 @@ func (x *Exec) enterBlock(p *Path, b *ssa.BasicBlock, from *ssa.BasicBlock, k *C
 			}
 			fr.loopMeas[b] = meas
 			fr.inLoop[b] = true
+			if fr.loopEvents == nil {
+				fr.loopEvents = map[*ssa.BasicBlock]int{}
+			}
+			fr.loopEvents[b] = len(p.events)
 			p.trace = append(p.trace, fmt.Sprintf("loop%d:enter", l.Ord))
 		} else {
+			// the call log of earlier iterations is not kept: a postcondition may only count calls that no completed
+			// iteration makes (every such call must be followed by leaving the loop)
+			if x.fc != nil && fr.depth == 0 {
+				base := fr.loopEvents[b]
+				for _, key := range x.eventKeysOfContract(x.fc) {
+					n := 0
+					if base <= len(p.events) {
+						for _, ev := range p.events[base:] {
+							if eventMatches(ev.Key, key) {
+								n++
+							}
+						}
+					}
+					goal := "true"
+					if n > 0 {
+						goal = "false"
+					}
+					x.oblige(p, fmt.Sprintf("loop%d:calllog", l.Ord), sanitizeSym(key), goal, nil, "a completed loop iteration calls "+key+", which a postcondition of this function counts (the call log of earlier iterations is not kept)")
+				}
+			}
 			for _, c := range lc.Invariants {
 				s, err := ctx.EvalBool(c.E)
 				if err != nil {
@@ -487,6 +511,59 @@ func (x *Exec) enterBlock(p *Path, b *ssa.BasicBlock, from *ssa.BasicBlock, k *C
 	}
 	p.trace = append(p.trace, fmt.Sprintf("b%d", b.Index))
 	x.execFrom(p, b, 0, k)
+}
+
+// eventKeysOfContract: the call keys the function's postconditions mention (calls / callarg / callres / before).
+func (x *Exec) eventKeysOfContract(fc *FuncContract) []string {
+	seen := map[string]bool{}
+	var out []string
+	var walk func(e Expr)
+	walk = func(e Expr) {
+		switch e := e.(type) {
+		case *ECall:
+			switch e.Fn {
+			case "calls", "callarg", "callres":
+				if len(e.Args) > 0 {
+					k := callKeyOf(e.Args[0])
+					if !seen[k] {
+						seen[k] = true
+						out = append(out, k)
+					}
+				}
+			case "before":
+				for _, a := range e.Args {
+					k := callKeyOf(a)
+					if !seen[k] {
+						seen[k] = true
+						out = append(out, k)
+					}
+				}
+			}
+			for _, a := range e.Args {
+				walk(a)
+			}
+		case *EUnary:
+			walk(e.X)
+		case *EBinary:
+			walk(e.L)
+			walk(e.R)
+		case *ESel:
+			walk(e.X)
+		case *EIndex:
+			walk(e.X)
+			walk(e.I)
+		case *EQuant:
+			walk(e.Body)
+		}
+	}
+	for _, c := range fc.Ensures {
+		walk(c.E)
+	}
+	for _, c := range fc.EnsPanic {
+		walk(c.E)
+	}
+	sort.Strings(out)
+	return out
 }
 
 func (x *Exec) loopContract(fr *FrameState, l *Loop) *LoopContract {
